@@ -475,6 +475,7 @@ type CalleeSpec struct {
 }
 
 type LoopSpec struct {
+	IterEnsures []*Clause // proved at every back edge (end of an iteration); not assumed at the head
 	Invariants []*Clause
 	Decreases  Expr
 }
@@ -790,6 +791,14 @@ func parseSpecLines(lines []specLine, pkg string, file string, trusted bool) (*S
 				c.ID = fmt.Sprintf("loop%d-%s", n, c.ID)
 				lastClause = c
 				ls.Invariants = append(ls.Invariants, c)
+			case "iter-ensures":
+				c, err := mk("iter-ensures", fmt.Sprintf("%s/loop%d", cur.Name, n), f[2], ln.pos)
+				if err != nil {
+					return nil, err
+				}
+				c.ID = fmt.Sprintf("loop%d-%s", n, c.ID)
+				lastClause = c
+				ls.IterEnsures = append(ls.IterEnsures, c)
 			case "decreases":
 				e, err := ParseExpr(f[2])
 				if err != nil {
